@@ -284,7 +284,7 @@ def validate(ctx, module, summ, sigfn, timeout=1800, xmx="3g", par=8):
     log("  B3 validate %-16s %d events in %d shards, %d rejected  %.1fs" % (module, total, len(shards), nfail, time.time() - t))
 
 
-def table_compare(ctx, tabfile, name="table", sigfn=None):
+def table_compare(ctx, tabfile, name="table", sigfn=None, as_behaviours=False):
     """B1: the harness compares a TLC-emitted table with the real code."""
     out = os.path.join(ctx.dir, name + ".report.json")
     t = time.time()
@@ -292,8 +292,12 @@ def table_compare(ctx, tabfile, name="table", sigfn=None):
     if rc != 0:
         raise Broken("table comparison failed rc=%d:\n%s" % (rc, o[-3000:]))
     rep = json.load(open(out))
-    ctx.table_rows += rep["rows"]
-    ctx.table_compared += rep["compared"]
+    if as_behaviours:
+        ctx.replayed_behaviours += rep["rows"]
+        ctx.replayed_steps += rep["compared"]
+    else:
+        ctx.table_rows += rep["rows"]
+        ctx.table_compared += rep["compared"]
     for k, v in (rep.get("classes") or {}).items():
         ctx.classes[k] = ctx.classes.get(k, 0) + v
     for s in rep.get("samples") or []:
@@ -303,8 +307,8 @@ def table_compare(ctx, tabfile, name="table", sigfn=None):
         reason = mm.get("reason", "table-mismatch")
         sig = sigfn(mm, reason) if sigfn else "%s/%s" % (mm.get("op", "table"), reason)
         ctx.failures.append(dict(kind="table", reason=reason, event=mm, history=[mm], sig=sig))
-    log("  B1 table %-18s %d rows, %d comparisons, %d mismatches%s  %.1fs" % (
-        name, rep["rows"], rep["compared"], len(rep.get("mismatches") or []),
+    log("  %s %-18s %d rows, %d comparisons, %d mismatches%s  %.1fs" % (
+        "B2 replay" if as_behaviours else "B1 table", name, rep["rows"], rep["compared"], len(rep.get("mismatches") or []),
         " (exhaustive)" if rep.get("exhaustive") else "", time.time() - t))
     return rep
 
